@@ -101,7 +101,7 @@ func (m *UpstreamClusterController) syncUpstreamCluster(obj interface{}) (syncqu
 		return syncqueue.Result{}, nil
 	}
 
-	_, err := m.lister.Get(cluster.Name)
+	latest, err := m.lister.Get(cluster.Name)
 	clusterName := strings.ToLower(cluster.Name)
 	if errors.IsNotFound(err) {
 		// clean cluster
@@ -111,6 +111,8 @@ func (m *UpstreamClusterController) syncUpstreamCluster(obj interface{}) (syncqu
 	if err != nil {
 		return syncqueue.Result{}, err
 	}
+	// always apply the current version: the delivered object may be a requeued, superseded one
+	cluster = latest
 
 	if err := m.checkUpstreamServerNameConflict(cluster); err != nil {
 		klog.Errorf("ckeck cluster %v failed: %v", cluster.Name, err)
